@@ -29,7 +29,7 @@ ASSUMPTIONS = [
     "eps_table = max over [min m_f, m_i] of |D(m_i) - D(m)|, D(m) = integral_{m_f}^{m} alpha_i/alpha dm' - (rho(m) - rho_f)/rho_i, from the raw table columns with the documented scaling m (c mu z / 2p)(p_i), computed by the harness (zero for a consistent continuous table): in the continuum the two recoveries differ by at most eps_table (DESIGN.md C03)",
     "E_t = 1/2 sum_i dt_i |rate_{i+1} - rate_i|: backward Euler balances mass with the right-endpoint rule while the library integrates the same rates with the trapezoid rule",
     "first-order discretisation: |flux - in-place| <= C ceiling (1/nx + theta) + E_t + eps_table with C = 3 and theta the largest per-step change of the field relative to the drawdown weighted by the diffusivity variation (time-linearisation of the lagged diffusivity); calibrated on the repaired tree",
-    "monotonicity tolerances are rounding level (1e-9 ceiling + 1e-12)",
+    "monotonicity and ceiling tolerances: 1e-6 of the ceiling plus a rounding model (stencil cancellation ~ eps |m_i| nx integrated over the step; sums over nx nodes ~ eps nx); a wrong sign or stencil gives decreases of the order of the ceiling itself",
 ]
 LEVEL_TEXT = (
     "Both recovery modes are computed on every generated run and related through an a-posteriori error model "
@@ -111,7 +111,7 @@ def check_run(case, res):
         if rb < 1e-6 and nx >= 3 and C_GAP / nx * S + e_t < S:  # otherwise the bound says nothing
             res.check("C03/ideal-plateau", max(abs(rff[-1] - S) - e_t, 0.0), C_GAP / nx * S + 1e-9, f"ideal-gas recovery plateaus at {rff[-1]!r}, 1 - p_f/p_i = {S!r} (nx={nx}, E_t={e_t!r});")
         dec = float(np.max(-np.diff(rff))) if nt > 1 else 0.0
-        res.check("C03/flux-recovery-non-decreasing", max(dec, 0.0), 1e-9 * S + 1e-12, f"ideal flux recovery decreases by {dec!r} (S={S!r});")
+        res.check("C03/flux-recovery-non-decreasing", max(dec, 0.0), 1e-6 * S + 1e-12 + 1024 * np.finfo(float).eps * nx * float(np.max(np.diff(t))) if nt > 1 else 1e-12, f"ideal flux recovery decreases by {dec!r} (S={S!r});")
         res.nontrivial = bool(nx >= 5 and (rb < 1e-2 or nt >= 51) and (C_GAP / nx * S + e_t) < 0.5 * S)
         return
     rfd = np.asarray(lib("recovery_factor(density)", r.res.recovery_factor, density=True), float).copy()
@@ -150,14 +150,14 @@ def check_run(case, res):
             f"flux recovery {rff[k]!r} vs in-place {rfd[k]!r} at t={t[k]!r} (ceiling {ceiling!r}, nx={nx}, E_t={e_t!r}, eps_table={eps!r}, theta={theta!r}, p_f/p_i={r.p_f / r.p_i!r});",
         )
     # in-place recovery never exceeds the ceiling
-    res.check("C03/in-place-below-ceiling", max(float(np.max(rfd)) - ceiling, 0.0), 1e-9 * ceiling + 1e-13 + 512 * np.finfo(float).eps * nx, f"in-place recovery {float(np.max(rfd))!r} above 1 - rho_f/rho_i = {ceiling!r} (p_f/p_i={r.p_f / r.p_i!r}, nx={nx});")
+    res.check("C03/in-place-below-ceiling", max(float(np.max(rfd)) - ceiling, 0.0), 1e-6 * ceiling + 1e-13 + 512 * np.finfo(float).eps * nx, f"in-place recovery {float(np.max(rfd))!r} above 1 - rho_f/rho_i = {ceiling!r} (p_f/p_i={r.p_f / r.p_i!r}, nx={nx});")
     # monotone in time while the frac-face pressure does not rise
     sched = r.schedule
     non_rising = sched is None or bool(np.all(np.diff(sched) <= 0))
     if non_rising and nt > 1:
         # rounding of the one-sided stencil (~ 8 eps |m| nx) is integrated over the step
         # (stencil cancellation plus the direct solve's own rounding in the relaxed state: ~75 eps measured)
-        tol_i = 1e-9 * ceiling + 1e-12 + 1024 * np.finfo(float).eps * abs(r.m_i) * nx * np.diff(t)
+        tol_i = 1e-6 * ceiling + 1e-12 + 1024 * np.finfo(float).eps * abs(r.m_i) * nx * np.diff(t)
         dec = -np.diff(rff) - tol_i
         kk = int(np.argmax(dec))
         res.check("C03/flux-recovery-non-decreasing", max(float(-np.diff(rff)[kk]), 0.0), float(tol_i[kk]), f"flux recovery decreases by {float(-np.diff(rff)[kk])!r} on step {kk} (dt={float(np.diff(t)[kk])!r}, ceiling {ceiling!r}, p_f/p_i={r.p_f / r.p_i!r});")
@@ -167,7 +167,7 @@ def check_run(case, res):
         regain = np.maximum(dens[1:, 0] - dens[:-1, 0], 0.0) / mass0
         drop = -np.diff(rfd) - regain
         # 1 - sum(rho)/sum(rho_0) over nx nodes carries a rounding error of ~ eps nx in absolute terms
-        res.check("C03/in-place-recovery-non-decreasing", max(float(np.max(drop)), 0.0), 1e-9 * ceiling + 1e-12 + 512 * np.finfo(float).eps * nx, f"in-place recovery decreases by more than node 0 regains: {float(np.max(drop))!r} (ceiling {ceiling!r});")
+        res.check("C03/in-place-recovery-non-decreasing", max(float(np.max(drop)), 0.0), 1e-6 * ceiling + 1e-12 + 512 * np.finfo(float).eps * nx, f"in-place recovery decreases by more than node 0 regains: {float(np.max(drop))!r} (ceiling {ceiling!r});")
     rb = c01.relaxation_bound(r) if r.constant_drawdown and nt > 1 else float("inf")
     res.labels["gap_oracle"] = "effective" if admissible < 0.5 * ceiling else "vacuous"
     res.nontrivial = bool(nx >= 5 and (rb < 1e-2 * r.d or nt >= 51) and admissible < 0.5 * ceiling)
